@@ -40,6 +40,15 @@ impl LegacyPriv {
     pub fn inner_key(&self) -> [u8; ed25519::EXTENDED_KEY_LENGTH] {
         let mut buf = [0; ed25519::EXTENDED_KEY_LENGTH];
         buf.clone_from_slice(&self.0.as_ref()[0..ed25519::EXTENDED_KEY_LENGTH]);
+        // Keys of legacy Daedalus wallets do not have to match the bip32 format (see secret_from_binary):
+        // the scalar may have its top bit set, which the scalar multiplication does not take (it asserts).
+        // The scalar reduced modulo the group order gives the same public key and the same signatures.
+        if buf[31] & 0x80 != 0 {
+            let mut wide = [0u8; 64];
+            wide[0..32].clone_from_slice(&buf[0..32]);
+            let reduced = cryptoxide::curve25519::Scalar::reduce_from_wide_bytes(&wide);
+            buf[0..32].clone_from_slice(&reduced.to_bytes());
+        }
         buf
     }
 
